@@ -28,7 +28,9 @@ import (
 	"time"
 
 	"github.com/postalsys/muti-metroo/internal/identity"
+	"github.com/postalsys/muti-metroo/internal/peer"
 	"github.com/postalsys/muti-metroo/internal/protocol"
+	"github.com/postalsys/muti-metroo/internal/transport"
 )
 
 var zzvCtlAgents = []string{"A", "B", "T", "X", "Y"}
@@ -68,6 +70,7 @@ type zzvCtlAct struct {
 	ID   uint64 `json:"id"`
 	From string `json:"from"`
 	At   string `json:"at"`
+	X    string `json:"x"`
 }
 
 type zzvCtlStep struct {
@@ -110,6 +113,9 @@ type zzvCtlWorld struct {
 	m    *zzvMesh
 	reqs []*zzvCtlReq
 	base map[string]int64 // frames delivered to an agent minus frames it has processed, when idle (handshake frames)
+	down map[string]bool  // targets whose connection to T was broken during the current path
+	tdMu sync.Mutex
+	td   map[string]int // completed handleDisconnect calls per agent (hook peer.disconnect.done)
 }
 
 func zzvCtlNewWorld(t testing.TB, hold bool) *zzvCtlWorld {
@@ -155,7 +161,17 @@ func zzvCtlNewWorld(t testing.TB, hold bool) *zzvCtlWorld {
 	if !m.Quiesce(10*time.Second, 30*time.Millisecond) {
 		t.Fatal("zzv: control mesh did not become quiet")
 	}
-	w := &zzvCtlWorld{t: t, m: m}
+	w := &zzvCtlWorld{t: t, m: m, down: map[string]bool{}, td: map[string]int{}}
+	m.SetHook("peer.disconnect.done", func(args ...any) {
+		mg, _ := args[0].(*peer.Manager)
+		for _, n := range zzvCtlAgents {
+			if m.Nodes[n].A.peerMgr == mg {
+				w.tdMu.Lock()
+				w.td[n]++
+				w.tdMu.Unlock()
+			}
+		}
+	})
 	w.base = w.backlog()
 	if hold {
 		w.holdAll(true)
@@ -249,7 +265,7 @@ func (w *zzvCtlWorld) answerer(resp *protocol.ControlResponse) string {
 		return "?nil"
 	}
 	if !resp.Success {
-		return "?error:" + string(resp.Data)
+		return "!" // an error response (generated by a transit: no route / next hop not connected ...)
 	}
 	var st struct {
 		AgentID string `json:"agent_id"`
@@ -425,7 +441,10 @@ func (w *zzvCtlWorld) apply(a zzvCtlAct) (ok bool, why string) {
 			return false, "no such outstanding request to cancel"
 		}
 		return true, ""
-	case "CtlAnswer", "CtlForward", "CtlDeliver", "CtlRelayResponse", "CtlDrop":
+	case "PeerDown":
+		w.peerDown(a.X)
+		return true, ""
+	case "CtlAnswer", "CtlForward", "CtlForwardFail", "CtlDeliver", "CtlRelayResponse", "CtlDrop":
 		if !w.deliver(a.From, a.At) {
 			return false, "no frame in flight on " + a.From + "->" + a.At
 		}
@@ -433,6 +452,93 @@ func (w *zzvCtlWorld) apply(a zzvCtlAct) (ok bool, why string) {
 	}
 	w.t.Fatalf("zzv: unknown action %q", a.Act)
 	return false, ""
+}
+
+// peerDown breaks the connection between T and target x: frames in flight on it are gone; waits until T has run
+// its peer-disconnect handling.
+func (w *zzvCtlWorld) peerDown(x string) {
+	lk := w.m.Net.LinkBetween(x, "T")
+	if lk == nil || lk.closed.Load() {
+		w.t.Fatalf("zzv: PeerDown(%s): no open link", x)
+	}
+	w.tdMu.Lock()
+	before := w.td["T"]
+	w.tdMu.Unlock()
+	for _, d := range []*zzvDir{lk.a.out, lk.b.out} {
+		d.mu.Lock()
+		d.pending = nil
+		d.mu.Unlock()
+	}
+	lk.close()
+	ok := zzvAwait(15*time.Second, func() bool {
+		w.tdMu.Lock()
+		n := w.td["T"]
+		w.tdMu.Unlock()
+		return n > before && w.agent("T").peerMgr.GetPeer(w.m.ID(x)) == nil && w.agent(x).peerMgr.GetPeer(w.m.ID("T")) == nil
+	})
+	if !ok {
+		w.t.Fatalf("zzv: PeerDown(%s): T did not finish its disconnect handling", x)
+	}
+	w.down[x] = true
+}
+
+// repair reconnects the targets that were disconnected during the path and brings the world back to its initial
+// state (forwarding entries for unreachable targets stay in the pinned code until their 60 s clean-up: removed here).
+func (w *zzvCtlWorld) repair() bool {
+	w.holdAll(false)
+	w.m.Net.mu.Lock()
+	filter := w.m.Net.filter
+	w.m.Net.filter = nil
+	w.m.Net.mu.Unlock()
+	ok := true
+	for x := range w.down {
+		ag := w.agent(x)
+		ctx, cancel := context.WithTimeout(context.Background(), 10*time.Second)
+		_, err := ag.peerMgr.ConnectWithTransport(ctx, ag.transports[transport.TransportWebSocket], zzvAddrOf("T"))
+		cancel()
+		if err != nil {
+			ok = false
+			continue
+		}
+		ag.TriggerRouteAdvertise()
+	}
+	if ok {
+		ok = zzvWaitFor(10*time.Second, func() bool {
+			for x := range w.down {
+				if w.agent("T").peerMgr.GetPeer(w.m.ID(x)) == nil {
+					return false
+				}
+				for _, a := range []string{"A", "B"} {
+					if w.agent(a).routeMgr.LookupAgent(w.m.ID(x)) == nil {
+						return false
+					}
+				}
+			}
+			return true
+		}) && w.m.Quiesce(10*time.Second, 20*time.Millisecond)
+	}
+	w.m.Net.mu.Lock()
+	w.m.Net.filter = filter
+	w.m.Net.mu.Unlock()
+	if !ok || !w.m.Quiesce(10*time.Second, 20*time.Millisecond) {
+		return false
+	}
+	for _, n := range zzvCtlAgents {
+		ag := w.agent(n)
+		ag.controlMu.Lock()
+		for id := range ag.forwardedControl {
+			delete(ag.forwardedControl, id)
+		}
+		for id := range ag.pendingControl {
+			delete(ag.pendingControl, id)
+		}
+		ag.nextControlID = 0
+		ag.controlMu.Unlock()
+	}
+	w.down = map[string]bool{}
+	w.base = w.backlog()
+	w.holdAll(true)
+	return true
 }
 
 type zzvCtlOutcome struct {
@@ -463,12 +569,14 @@ func (w *zzvCtlWorld) finish() (out []zzvCtlOutcome, clean bool) {
 			o.Res, o.Good = "cancelled", true
 		case r.res != nil && r.res.err == nil:
 			o.Res = w.answerer(r.res.resp)
-			o.Good = o.Res == r.target
+			// the target's own answer; or, when the path to the target was broken, a transit's error response
+			o.Good = o.Res == r.target || (o.Res == "!" && w.down[r.target])
 		case r.res != nil:
 			o.Res, o.Good = "error:"+r.res.err.Error(), false
 		default:
 			// still pending although every frame has been delivered and processed: the response is lost
-			o.Res, o.Good = "lost", false
+			// (unless the target became unreachable: then nobody can answer)
+			o.Res, o.Good = "lost", w.down[r.target]
 			r.cancel()
 			<-r.ch
 		}
@@ -477,7 +585,7 @@ func (w *zzvCtlWorld) finish() (out []zzvCtlOutcome, clean bool) {
 	}
 	w.reqs = nil
 	quiet()
-	clean = true
+	clean = len(w.down) == 0
 	for _, n := range zzvCtlAgents {
 		ag := w.agent(n)
 		ag.controlMu.Lock()
@@ -606,18 +714,32 @@ func TestZZVCtlReplay(t *testing.T) {
 			ok, why := w.apply(st.A)
 			steps++
 			real := w.project()
+			// after a connection broke, what a correct transit may do is not unique (keep waiting / fail fast with
+			// an error under the asker's id): differences from the spec are then judged by the outcome oracle only
+			class := "viol"
+			if len(w.down) > 0 {
+				class = "diverged"
+			}
 			if !ok {
-				report("viol", map[string]any{"path": pi, "step": si, "a": st.A, "why": why, "s": prev, "spec_t": st.T, "real_t": real,
+				report(class, map[string]any{"path": pi, "step": si, "a": st.A, "why": why, "s": prev, "spec_t": st.T, "real_t": real,
 					"fields": []string{"q." + st.A.From + st.A.At}, "rerun": rerun})
-				viol++
+				if class == "viol" {
+					viol++
+				} else if !rerun {
+					diverged++
+				}
 				stopped = true
 				break
 			}
 			obs, internal := zzvCtlCompare(real, st.T)
 			if len(obs) > 0 {
-				report("viol", map[string]any{"path": pi, "step": si, "a": st.A, "s": prev, "spec_t": st.T, "real_t": real,
+				report(class, map[string]any{"path": pi, "step": si, "a": st.A, "s": prev, "spec_t": st.T, "real_t": real,
 					"fields": obs, "internal": internal, "prefix": zzvCtlActs(path.Steps[:si+1]), "rerun": rerun})
-				viol++
+				if class == "viol" {
+					viol++
+				} else if !rerun {
+					diverged++
+				}
 				stopped = true
 				break
 			}
@@ -640,7 +762,9 @@ func TestZZVCtlReplay(t *testing.T) {
 			}
 		}
 		if !clean {
-			fresh()
+			if len(w.down) == 0 || !w.repair() {
+				fresh()
+			}
 		}
 	}
 	for pi := range in.Paths {
